@@ -193,12 +193,27 @@ def is_one(a):
 
 # ------------------------------------------------------------------ storage / tensor
 
+def _memo(fn):
+    """element functions are pure: memoise per index tuple (terms are hash-consed), otherwise the
+    re-evaluation of shared sub-tensors is exponential in the depth of a recursion"""
+    cache = {}
+
+    def g(idx):
+        r = cache.get(idx)
+        if r is None:
+            r = fn(idx)
+            cache[idx] = r
+        return r
+    g._pfv_memo = True
+    return g
+
+
 class Storage:
     _ids = itertools.count()
 
     def __init__(self, fn, shape, origin='fresh'):
         self.id = next(Storage._ids)
-        self.fn = fn               # base index tuple (of T) -> T ; replaced on in-place writes
+        self.fn = _memo(fn)        # base index tuple (of T) -> T ; replaced on in-place writes
         self.shape = tuple(shape)
         self.origin = origin       # 'fresh' | 'input:<name>' | 'param:<name>' | 'random:<name>'
         self.nwrites = 0
@@ -207,7 +222,7 @@ class Storage:
             c.storages.append(self)
 
     def write(self, newfn, what):
-        self.fn = newfn
+        self.fn = _memo(newfn)
         self.nwrites += 1
         c = Ctx.current
         if c is not None:
